@@ -67,14 +67,21 @@ class DurationObserver(FeatureObserver):
         self.features[FeatureType.OPERATIONS] = operation_durations
 
     def _initialize_machine_durations(self):
-        machine_durations = self.dispatcher.instance.machine_loads
-        for machine_id, machine_load in enumerate(machine_durations):
-            self.features[FeatureType.MACHINES][machine_id, 0] = machine_load
+        # Only unscheduled operations are counted, so that the observer is
+        # also right when it is created after some operations have been
+        # dispatched.
+        self.features[FeatureType.MACHINES][:] = 0
+        for operation in self.dispatcher.unscheduled_operations():
+            self.features[FeatureType.MACHINES][
+                operation.machines, 0
+            ] += operation.duration
 
     def _initialize_job_durations(self):
-        job_durations = self.dispatcher.instance.job_durations
-        for job_id, job_duration in enumerate(job_durations):
-            self.features[FeatureType.JOBS][job_id, 0] = job_duration
+        self.features[FeatureType.JOBS][:] = 0
+        for operation in self.dispatcher.unscheduled_operations():
+            self.features[FeatureType.JOBS][
+                operation.job_id, 0
+            ] += operation.duration
 
     def _update_operation_durations(
         self, scheduled_operation: ScheduledOperation
